@@ -7,7 +7,7 @@ tvars == <<vars, last, l>>
 E == Trace[l]
 LoggedPost(p) == /\ prev' = p.prev /\ par' = p.par /\ bal' = p.bal /\ supply' = p.supply
                  /\ height' = p.height /\ halted' = p.halted
-Lbl(e) == [f \in (DOMAIN e) \ {"post", "x"} |-> e[f]]
+Lbl(e) == [f \in (DOMAIN e) \ {"post", "x", "st"} |-> e[f]]   \* st: which of the two stipend accounts is configured (harness side)
 SpecAct(e) == CASE e.a = "block" -> Block [] e.a = "setparams" -> SetParams(e.p)
 Report_(kind, name) == PrintT(<<kind, name, l>>)
 Chk(name, F) == IF F THEN TRUE ELSE Report_("VIOL", name)
